@@ -561,11 +561,51 @@ func init() {
 		}
 		return strings.Contains(a[0].(string), a[1].(string))
 	})
+	// internal/bytealg (assembly): on concrete strings natively; on byte-sequence strings by comparing
+	// byte by byte (each comparison with a symbolic byte is a solver-decided branch)
+	indexByte := func(fr *frame, hay value, c value) value {
+		if hs, ok := hay.(string); ok {
+			if cb, ok := c.(byte); ok {
+				return strings.IndexByte(hs, cb)
+			}
+		}
+		bs, ok := strBytes(hay)
+		if !ok {
+			if sl, ok2 := hay.([]value); ok2 {
+				bs = sl
+			} else {
+				panic(unsupported("IndexByte on an unbounded symbolic string"))
+			}
+		}
+		u8 := types.Typ[types.Uint8]
+		for i, b := range bs {
+			if fr.ex().truth(binop(token.EQL, u8, b, c)) {
+				return i
+			}
+		}
+		return -1
+	}
+	reg("internal/bytealg.IndexByteString", func(fr *frame, a []value) value { return indexByte(fr, a[0], a[1]) })
+	reg("internal/bytealg.IndexByte", func(fr *frame, a []value) value { return indexByte(fr, a[0], a[1]) })
+	reg("strings.IndexByte", func(fr *frame, a []value) value { return indexByte(fr, a[0], a[1]) })
+	reg("internal/bytealg.CountString", func(fr *frame, a []value) value {
+		bs, ok := strBytes(a[0])
+		if !ok {
+			panic(unsupported("CountString on an unbounded symbolic string"))
+		}
+		n := 0
+		u8 := types.Typ[types.Uint8]
+		for _, b := range bs {
+			if fr.ex().truth(binop(token.EQL, u8, b, a[1])) {
+				n++
+			}
+		}
+		return n
+	})
 	reg("strings.ToLower", func(fr *frame, a []value) value { return strings.ToLower(asString(fr, a[0])) })
 	reg("strings.ToUpper", func(fr *frame, a []value) value { return strings.ToUpper(asString(fr, a[0])) })
 	reg("strings.TrimSpace", func(fr *frame, a []value) value { return strings.TrimSpace(asString(fr, a[0])) })
 	reg("strings.Index", func(fr *frame, a []value) value { return strings.Index(asString(fr, a[0]), asString(fr, a[1])) })
-	reg("strings.IndexByte", func(fr *frame, a []value) value { return strings.IndexByte(asString(fr, a[0]), a[1].(byte)) })
 	reg("strings.Split", func(fr *frame, a []value) value {
 		var out []value
 		for _, s := range strings.Split(asString(fr, a[0]), asString(fr, a[1])) {
